@@ -194,7 +194,9 @@ def near_duplicates(rng, b):
     if n >= 24:
         mid = bytearray(b)
         i = rng.randrange(9, n - 9)
-        mid[i] = (mid[i] + 1 + rng.randrange(254)) & 0xff if mid[i] < 0x80 else mid[i] ^ 1
+        mid[i] = (0x41 + (mid[i] + 1 + rng.randrange(24)) % 26) if mid[i] < 0x80 else mid[i] ^ 1   # ASCII stays ASCII
+        if mid[i] == b[i]:
+            mid[i] = 0x5a if b[i] != 0x5a else 0x59
         out.append(bytes(mid))
     if n >= 4:
         sw = bytearray(b)
